@@ -694,3 +694,257 @@ Proof.
   pose proof (unmarked_ms _ _ _ _ _ (mark_spec _ _ _ _ _ _ _ E5)) as L5.
   apply mark_fuel_enough; [assumption|lia].
 Qed.
+
+(* ==================================================================== sweep *)
+Definition swept_state (x : gcstate) : gcstate :=
+  match x with GAllocated => GFree | GUsed => GAllocated | GFree => GFree end.
+Definition st_alloc (x : gcstate) : bool := match x with GAllocated => true | _ => false end.
+Definition holds_sym (c : vcell) (name : text) : bool :=
+  match c with VSym t => text_eqb t name | _ => false end.
+
+Lemma text_eqb_eq : forall a b, text_eqb a b = true <-> a = b.
+Proof. intros. unfold text_eqb. destruct (list_eq_dec N.eq_dec a b); split; congruence. Qed.
+Lemma text_eqb_refl : forall a, text_eqb a a = true.
+Proof. intros. now apply text_eqb_eq. Qed.
+
+Lemma symtab_find_remove : forall st n n',
+  symtab_find (symtab_remove st n) n' = if text_eqb n n' then None else symtab_find st n'.
+Proof.
+  induction st as [|[k p] r IH]; intros n n'.
+  - cbn. now destruct (text_eqb n n').
+  - cbn [symtab_remove symtab_find]. destruct (text_eqb k n) eqn:E1.
+    + apply text_eqb_eq in E1. subst k. rewrite IH.
+      destruct (text_eqb n n'); reflexivity.
+    + cbn [symtab_find]. rewrite IH. destruct (text_eqb k n') eqn:E2; [|reflexivity].
+      apply text_eqb_eq in E2. subst k.
+      destruct (text_eqb n n') eqn:E3; [|reflexivity].
+      apply text_eqb_eq in E3. subst n'. rewrite text_eqb_refl in E1. discriminate.
+Qed.
+
+Lemma cell_at_tset_same : forall h p v,
+  cell_at (mk_heap (tset (cells h) p v) (hlen h) (free_list h) (gcmap h) (symtab h) (chunk h)) p = v.
+Proof. intros. unfold cell_at. cbn. now rewrite tget_tset_same. Qed.
+
+Lemma in_range_asc : forall n a x, In x (range_asc a n) <-> a <= x < a + N.of_nat n.
+Proof.
+  induction n as [|n IH]; intros a x.
+  - cbn. lia.
+  - cbn [range_asc In]. rewrite IH. lia.
+Qed.
+
+Lemma existsb_ext_in : forall A (f g : A -> bool) l,
+  (forall x, In x l -> f x = g x) -> existsb f l = existsb g l.
+Proof.
+  induction l as [|x r IH]; intros H; [reflexivity|].
+  cbn. rewrite H by (now left). rewrite IH; [reflexivity|]. intros; apply H; now right.
+Qed.
+
+(* one iteration of the sweep loop *)
+Definition sweep_step (h : heap) (it : N) : out heap :=
+  match g_get (gcmap h) it with
+  | GAllocated => heap_free h it
+  | GUsed => Ok (set_gcmap h (tset (gcmap h) it GAllocated))
+  | GFree => Ok h
+  end.
+
+Lemma sweep_step_spec : forall h it, it < hlen h ->
+  exists h1, sweep_step h it = Ok h1 /\ hlen h1 = hlen h /\ chunk h1 = chunk h
+    /\ (forall a, g_get (gcmap h1) a = if a =? it then swept_state (g_get (gcmap h) it) else g_get (gcmap h) a)
+    /\ (forall a, cell_at h1 a = if (a =? it) && st_alloc (g_get (gcmap h) it) then VUndef else cell_at h a)
+    /\ free_list h1 = (if st_alloc (g_get (gcmap h) it) then [it] else []) ++ free_list h
+    /\ (forall name, symtab_find (symtab h1) name =
+          if st_alloc (g_get (gcmap h) it) && holds_sym (cell_at h it) name then None
+          else symtab_find (symtab h) name).
+Proof.
+  intros h it Hlt. unfold sweep_step. destruct (g_get (gcmap h) it) eqn:Eg.
+  - exists h. repeat split; try reflexivity.
+    + intros a. destruct (N.eqb_spec a it); [subst; now rewrite Eg|reflexivity].
+    + intros a. now rewrite andb_false_r.
+  - unfold heap_free. apply N.ltb_lt in Hlt. rewrite Hlt.
+    eexists. split; [reflexivity|]. cbn [hlen chunk gcmap free_list symtab st_alloc andb app swept_state].
+    repeat split.
+    + intros a. destruct (N.eqb_spec a it) as [->|Hne]; [apply g_get_tset_same|].
+      apply g_get_tset_other. congruence.
+    + intros a. rewrite andb_true_r. unfold cell_at at 1. cbn [cells].
+      destruct (N.eqb_spec a it) as [->|Hne]; [now rewrite tget_tset_same|].
+      rewrite tget_tset_other by congruence. reflexivity.
+    + intros name. destruct (cell_at h it) eqn:Ec; cbn [holds_sym]; try reflexivity.
+      apply symtab_find_remove.
+  - eexists. split; [reflexivity|]. cbn [set_gcmap hlen chunk gcmap free_list symtab st_alloc andb app swept_state].
+    repeat split.
+    + intros a. destruct (N.eqb_spec a it) as [->|Hne]; [apply g_get_tset_same|].
+      apply g_get_tset_other. congruence.
+    + intros a. now rewrite andb_false_r.
+Qed.
+
+Lemma sweep_from_unfold : forall h it k,
+  sweep_from h it (S k) = (do h1 <- sweep_step h it; sweep_from h1 (it + 1) k).
+Proof. reflexivity. Qed.
+
+Definition in_win (it : N) (n : nat) (a : N) : bool := (it <=? a) && (a <? it + N.of_nat n).
+
+Lemma sweep_from_spec : forall n h it, it + N.of_nat n <= hlen h ->
+  exists h', sweep_from h it n = Ok h' /\ hlen h' = hlen h /\ chunk h' = chunk h
+    /\ (forall a, g_get (gcmap h') a =
+          if in_win it n a then swept_state (g_get (gcmap h) a) else g_get (gcmap h) a)
+    /\ (forall a, cell_at h' a =
+          if in_win it n a && st_alloc (g_get (gcmap h) a) then VUndef else cell_at h a)
+    /\ free_list h' = rev (filter (fun a => st_alloc (g_get (gcmap h) a)) (range_asc it n)) ++ free_list h
+    /\ (forall name, symtab_find (symtab h') name =
+          if existsb (fun a => st_alloc (g_get (gcmap h) a) && holds_sym (cell_at h a) name) (range_asc it n)
+          then None else symtab_find (symtab h) name).
+Proof.
+  induction n as [|n IH]; intros h it Hle.
+  - exists h. cbn [sweep_from range_asc filter rev app existsb]. repeat split; try reflexivity.
+    + intros a. unfold in_win. replace (it + N.of_nat 0) with it by lia.
+      destruct (N.leb_spec it a), (N.ltb_spec a it); try reflexivity; lia.
+    + intros a. unfold in_win. replace (it + N.of_nat 0) with it by lia.
+      destruct (N.leb_spec it a), (N.ltb_spec a it); try reflexivity; lia.
+  - rewrite sweep_from_unfold.
+    destruct (sweep_step_spec h it) as [h1 [E1 [L1 [C1 [G1 [K1 [F1 SY1]]]]]]]; [lia|].
+    rewrite E1. cbn [bind].
+    destruct (IH h1 (it + 1)) as [h' [E [L [C [G [K [F SY]]]]]]]; [rewrite L1; lia|].
+    exists h'. split; [assumption|]. split; [congruence|]. split; [congruence|].
+    assert (Hother : forall a, a <> it -> g_get (gcmap h1) a = g_get (gcmap h) a
+                                       /\ cell_at h1 a = cell_at h a).
+    { intros a Hne. rewrite G1, K1. apply N.eqb_neq in Hne. now rewrite Hne. }
+    repeat split.
+    + intros a. rewrite G. unfold in_win.
+      destruct (N.eq_dec a it) as [->|Hne].
+      * rewrite G1, N.eqb_refl.
+        destruct (N.leb_spec (it + 1) it); [lia|]. cbn [andb].
+        destruct (N.leb_spec it it); [|lia]. destruct (N.ltb_spec it (it + N.of_nat (S n))); [|lia].
+        reflexivity.
+      * destruct (Hother a Hne) as [-> _].
+        destruct (N.leb_spec (it + 1) a), (N.leb_spec it a),
+                 (N.ltb_spec a (it + 1 + N.of_nat n)), (N.ltb_spec a (it + N.of_nat (S n)));
+          try reflexivity; lia.
+    + intros a. rewrite K. unfold in_win.
+      destruct (N.eq_dec a it) as [->|Hne].
+      * rewrite K1, G1, !N.eqb_refl.
+        destruct (N.leb_spec (it + 1) it); [lia|]. cbn [andb].
+        destruct (N.leb_spec it it); [|lia]. destruct (N.ltb_spec it (it + N.of_nat (S n))); [|lia].
+        reflexivity.
+      * destruct (Hother a Hne) as [-> ->].
+        destruct (N.leb_spec (it + 1) a), (N.leb_spec it a),
+                 (N.ltb_spec a (it + 1 + N.of_nat n)), (N.ltb_spec a (it + N.of_nat (S n)));
+          try reflexivity; lia.
+    + rewrite F, F1. cbn [range_asc filter].
+      rewrite (filter_ext_in (fun a => st_alloc (g_get (gcmap h1) a))
+                             (fun a => st_alloc (g_get (gcmap h) a))).
+      2:{ intros a Ha. apply in_range_asc in Ha. destruct (Hother a) as [-> _]; [lia|reflexivity]. }
+      destruct (st_alloc (g_get (gcmap h) it)); cbn [rev app]; [|reflexivity].
+      now rewrite <- app_assoc.
+    + intros name. rewrite SY, SY1. cbn [range_asc existsb].
+      rewrite (existsb_ext_in _ (fun a => st_alloc (g_get (gcmap h1) a) && holds_sym (cell_at h1 a) name)
+                                (fun a => st_alloc (g_get (gcmap h) a) && holds_sym (cell_at h a) name)).
+      2:{ intros a Ha. apply in_range_asc in Ha. destruct (Hother a) as [-> ->]; [lia|reflexivity]. }
+      destruct (st_alloc (g_get (gcmap h) it) && holds_sym (cell_at h it) name); cbn [orb].
+      * now destruct (existsb _ _).
+      * reflexivity.
+Qed.
+
+(* C03 sweep_exact: exactly the Allocated cells become Free, are overwritten with
+   Undefined and pushed on the free list (once, in ascending order of address, so the
+   highest freed address is the next one allocated), and lose their symbol-table entry iff
+   they held a symbol; Used cells become Allocated and are otherwise untouched; sweep
+   never panics. *)
+Theorem sweep_exact : forall h, exists h', sweep h = Ok h' /\ hlen h' = hlen h /\ chunk h' = chunk h
+  /\ (forall a, g_get (gcmap h') a =
+        if a <? hlen h then swept_state (g_get (gcmap h) a) else g_get (gcmap h) a)
+  /\ (forall a, cell_at h' a =
+        if (a <? hlen h) && st_alloc (g_get (gcmap h) a) then VUndef else cell_at h a)
+  /\ free_list h' = rev (filter (fun a => st_alloc (g_get (gcmap h) a))
+                                (range_asc 0 (N.to_nat (hlen h)))) ++ free_list h
+  /\ (forall name, symtab_find (symtab h') name =
+        if existsb (fun a => st_alloc (g_get (gcmap h) a) && holds_sym (cell_at h a) name)
+                   (range_asc 0 (N.to_nat (hlen h)))
+        then None else symtab_find (symtab h) name).
+Proof.
+  intros h. unfold sweep.
+  destruct (sweep_from_spec (N.to_nat (hlen h)) h 0) as [h' [E [L [C [G [K [F SY]]]]]]];
+    [rewrite N2Nat.id; lia|].
+  exists h'. repeat split; try assumption.
+  - intros a. rewrite G. unfold in_win. rewrite N2Nat.id. cbn [N.add].
+    destruct (N.leb_spec 0 a); [|lia]. reflexivity.
+  - intros a. rewrite K. unfold in_win. rewrite N2Nat.id. cbn [N.add].
+    destruct (N.leb_spec 0 a); [|lia]. reflexivity.
+Qed.
+
+Lemma range_asc_nodup : forall n a, NoDup (range_asc a n).
+Proof.
+  induction n as [|n IH]; intros a; [constructor|].
+  cbn. constructor; [|apply IH]. rewrite in_range_asc. lia.
+Qed.
+
+(* ======================================================== the whole collection *)
+Definition no_used (h : heap) : Prop := forall a, g_is_used (gcmap h) a = false.
+Definition gmap_in_range (h : heap) : Prop := forall a, hlen h <= a -> g_get (gcmap h) a = GFree.
+
+Lemma collect_inv : forall vd fuel order v h', collect vd fuel order v = Ok h' ->
+  exists m, mark_roots vd fuel order v (gcmap (hp v)) = Ok m /\ sweep (set_gcmap (hp v) m) = Ok h'.
+Proof. intros vd fuel order v h' H. unfold collect in H. now apply bind_ok_inv in H. Qed.
+
+Lemma g_is_used_get : forall m a, g_is_used m a = true <-> g_get m a = GUsed.
+Proof. intros. unfold g_is_used. destruct (g_get m a); split; congruence. Qed.
+
+(* C12 after_gc_allocated_eq_reachable: immediately after a collection the allocated
+   cells are exactly the cells reachable from the roots — whatever their kind, since
+   [cref] has a case for every constructor of vcell *)
+Theorem after_gc_allocated_eq_reachable : forall vd fuel order v h',
+  no_used (hp v) -> gmap_in_range (hp v) ->
+  collect vd fuel order v = Ok h' ->
+  forall a, g_get (gcmap h') a = GAllocated <->
+            (a < hlen (hp v) /\ reach_from (hp v) (st v) (root order v) a).
+Proof.
+  intros vd fuel order v h' Hnu Hir H a.
+  apply collect_inv in H as [m [Hm Hs]].
+  pose proof (mark_exact vd fuel order v _ m Hnu Hm a) as ME.
+  pose proof (mark_roots_spec _ _ _ _ _ _ Hm) as MS.
+  destruct (sweep_exact (set_gcmap (hp v) m)) as [h2 [E2 [L [C [G _]]]]].
+  rewrite Hs in E2. injection E2 as <-. cbn [set_gcmap hlen gcmap] in *.
+  rewrite G. destruct (N.ltb_spec a (hlen (hp v))) as [Hlt|Hge].
+  - rewrite <- ME, g_is_used_get.
+    destruct (g_get m a) eqn:Eg; cbn [swept_state]; split; congruence.
+  - split; [|intros [? _]; lia]. intros Ea.
+    destruct (ms_frame _ _ _ _ _ MS a) as [E|[_ [L' _]]]; [|lia].
+    rewrite E, (Hir a Hge) in Ea. discriminate.
+Qed.
+
+(* C03 gc_preserves_live: every cell reachable from the roots keeps its contents and is
+   allocated after the collection *)
+Theorem gc_preserves_live : forall vd fuel order v h',
+  no_used (hp v) ->
+  collect vd fuel order v = Ok h' ->
+  forall a, a < hlen (hp v) -> reach_from (hp v) (st v) (root order v) a ->
+    g_get (gcmap h') a = GAllocated /\ cell_at h' a = cell_at (hp v) a.
+Proof.
+  intros vd fuel order v h' Hnu H a Hlt R.
+  apply collect_inv in H as [m [Hm Hs]].
+  pose proof (proj2 (mark_exact vd fuel order v _ m Hnu Hm a) (conj Hlt R)) as U.
+  apply g_is_used_get in U.
+  destruct (sweep_exact (set_gcmap (hp v) m)) as [h2 [E2 [L [C [G [K _]]]]]].
+  rewrite Hs in E2. injection E2 as <-. cbn [set_gcmap hlen gcmap] in *.
+  rewrite G, K. apply N.ltb_lt in Hlt. rewrite Hlt, U. cbn. split; reflexivity.
+Qed.
+
+(* ... and unreachable cells are reclaimed: free, Undefined *)
+Theorem gc_reclaims_garbage : forall vd fuel order v h',
+  no_used (hp v) ->
+  collect vd fuel order v = Ok h' ->
+  forall a, a < hlen (hp v) -> ~ reach_from (hp v) (st v) (root order v) a ->
+    g_get (gcmap h') a = GFree /\ cell_at h' a = (if st_alloc (g_get (gcmap (hp v)) a) then VUndef else cell_at (hp v) a).
+Proof.
+  intros vd fuel order v h' Hnu H a Hlt NR.
+  apply collect_inv in H as [m [Hm Hs]].
+  pose proof (mark_exact vd fuel order v _ m Hnu Hm a) as ME.
+  pose proof (mark_roots_spec _ _ _ _ _ _ Hm) as MS.
+  assert (Eg : g_get m a = g_get (gcmap (hp v)) a).
+  { destruct (ms_frame _ _ _ _ _ MS a) as [E|[U _]]; [assumption|].
+    apply ME in U. tauto. }
+  destruct (sweep_exact (set_gcmap (hp v) m)) as [h2 [E2 [L [C [G [K _]]]]]].
+  rewrite Hs in E2. injection E2 as <-. cbn [set_gcmap hlen gcmap] in *.
+  rewrite G, K. apply N.ltb_lt in Hlt. rewrite Hlt, Eg. cbn [andb].
+  specialize (Hnu a). apply not_true_iff_false in Hnu. rewrite g_is_used_get in Hnu.
+  destruct (g_get (gcmap (hp v)) a); cbn; tauto.
+Qed.
